@@ -3,7 +3,9 @@ package c11
 import (
 	"context"
 	"database/sql"
+	"database/sql/driver"
 	"fmt"
+	"io"
 	"regexp"
 	"sort"
 	"strconv"
@@ -78,10 +80,26 @@ type insPlan struct {
 	prefill  int          // rows inserted back to back by one client before the producers start (aimed at the inserter's row threshold)
 	failAt   map[int]bool // Exec invocations that return an error
 	hPanicAt int          // result handler invocation that panics (-1: none)
+	errKind  int          // identity of the errors Exec returns (ek*)
 }
 
+// identities of the errors the stub connection returns
+const (
+	ekPlain        = iota // the harness' own error type
+	ekWrapBadConn         // ... wrapping driver.ErrBadConn
+	ekWrapDeadline        // ... wrapping context.DeadlineExceeded
+	ekWrapConnDone        // ... wrapping sql.ErrConnDone
+	ekBareDeadline        // context.DeadlineExceeded itself (first failure of the run; the others wrap it)
+	ekWrapCanceled        // ... wrapping context.Canceled
+	ekBareBadConn         // driver.ErrBadConn itself (first failure; the others wrap it)
+	ekWrapEOF             // ... wrapping io.ErrUnexpectedEOF
+	ekKinds
+)
+
+var ekNames = []string{"plain", "wraps driver.ErrBadConn", "wraps context.DeadlineExceeded", "wraps sql.ErrConnDone", "context.DeadlineExceeded itself", "wraps context.Canceled", "driver.ErrBadConn itself", "wraps io.ErrUnexpectedEOF"}
+
 func (ip *insPlan) String() string {
-	return fmt.Sprintf("stmt0=S%d handler0=%v prefill=%d execFailAt=%v handlerPanicAt=%d", ip.tmpl0, ip.handler0, ip.prefill, keys(ip.failAt), ip.hPanicAt)
+	return fmt.Sprintf("stmt0=S%d handler0=%v prefill=%d execFailAt=%v (%s) handlerPanicAt=%d", ip.tmpl0, ip.handler0, ip.prefill, keys(ip.failAt), ekNames[ip.errKind], ip.hPanicAt)
 }
 
 // The inserter's flush period (1 s) and row threshold (1000) are not configurable; the
@@ -160,6 +178,20 @@ func drawInserterPlan(t *simrt.Tape, tier string, p *plan) {
 		p.sniper = 1
 		p.sniperOff = []time.Duration{0, -time.Nanosecond, time.Nanosecond, -iv, iv}[t.Intn(5)]
 	}
+	if p.panicAt >= 0 {
+		p.panicSet[p.panicAt] = true
+	}
+	if p.panicAt >= 0 || ip.hPanicAt >= 0 {
+		if p.panicAt < 0 {
+			// only the handler panics: its values need identities too
+			p.panicKinds = []int{t.Intn(pkKinds)}
+		} else {
+			drawFaultIdentities(t, p)
+		}
+	}
+	if len(ip.failAt) > 0 {
+		ip.errKind = t.Intn(ekKinds)
+	}
 }
 
 // ---------------------------------------------------------------- stub connection
@@ -169,9 +201,50 @@ type execResult struct{ n int }
 func (e *execResult) LastInsertId() (int64, error) { return int64(e.n), nil }
 func (e *execResult) RowsAffected() (int64, error) { return 1, nil }
 
-type execError struct{ n int }
+type execError struct {
+	n     int
+	cause error
+}
 
-func (e *execError) Error() string { return fmt.Sprintf("injected: statement #%d failed", e.n) }
+func (e *execError) Error() string {
+	if e.cause != nil {
+		return fmt.Sprintf("injected: statement #%d failed: %v", e.n, e.cause)
+	}
+	return fmt.Sprintf("injected: statement #%d failed", e.n)
+}
+func (e *execError) Unwrap() error { return e.cause }
+
+// execErr is the error of a failing Exec in the identity drawn for the run.
+func (iw *insWorld) execErr(n int) error {
+	iw.fails++
+	kind := iw.w.p.ins.errKind
+	if kind != ekPlain {
+		iw.w.r.Probe("exec-failed-with-sentinel-error")
+	}
+	switch kind {
+	case ekWrapBadConn:
+		return &execError{n, driver.ErrBadConn}
+	case ekWrapDeadline:
+		return &execError{n, context.DeadlineExceeded}
+	case ekWrapConnDone:
+		return &execError{n, sql.ErrConnDone}
+	case ekBareDeadline:
+		if iw.fails == 1 {
+			return context.DeadlineExceeded
+		}
+		return &execError{n, context.DeadlineExceeded}
+	case ekWrapCanceled:
+		return &execError{n, context.Canceled}
+	case ekBareBadConn:
+		if iw.fails == 1 {
+			return driver.ErrBadConn
+		}
+		return &execError{n, driver.ErrBadConn}
+	case ekWrapEOF:
+		return &execError{n, io.ErrUnexpectedEOF}
+	}
+	return &execError{n: n}
+}
 
 // stubConn implements sqlx.SqlConn; BulkInserter only ever calls Exec (any other method
 // would dereference the nil embedded interface and show up as an uncaught panic).
@@ -194,7 +267,7 @@ type execRec struct {
 	end      int // 0: Exec has not returned (running or panicked)
 	batch    *batchRec
 	res      *execResult
-	err      *execError
+	err      error
 	panicked bool
 }
 
@@ -230,6 +303,7 @@ type insWorld struct {
 	hcalls   []*handlerCall
 	hInv     int
 	bad      int
+	fails    int // Exec calls that returned an error so far
 }
 
 type inserterEx struct{ iw *insWorld }
@@ -482,7 +556,7 @@ func (iw *insWorld) exec(q string, args []any) (sql.Result, error) {
 	e.end = w.tick()
 	if w.p.ins.failAt[inv] {
 		r.Probe("exec-failed")
-		e.err = &execError{n: inv}
+		e.err = iw.execErr(inv)
 		return nil, e.err
 	}
 	e.res = &execResult{n: inv}
@@ -657,7 +731,7 @@ func (iw *insWorld) setHandler() {
 			w.r.Yield()
 			if n == w.p.ins.hPanicAt {
 				w.r.Probe("result-handler-panicked")
-				panic(fmt.Sprintf("user-panic-in-result-handler-%d", n))
+				w.raise(fmt.Sprintf("result-handler-%d", n))
 			}
 		})
 	})
@@ -676,7 +750,7 @@ func (iw *insWorld) checkHandlers() bool {
 			if e.end == 0 {
 				continue
 			}
-			if (e.res != nil && c.res == sql.Result(e.res)) || (e.err != nil && c.err == error(e.err)) {
+			if (e.res != nil && c.res == sql.Result(e.res)) || (e.err != nil && c.err == e.err) {
 				match = e
 			}
 		}
